@@ -207,6 +207,18 @@ var All = []Prog{
 		var wg sync.WaitGroup
 		return catch(func() { wg.Done() })
 	}},
+	{Name: "waitgroup-reuse-panics", Want: []string{"ok", "sync: WaitGroup is reused before previous Wait has returned"}, NoNative: true, Fn: func() string {
+		// a waiter woken at zero re-reads the state when it resumes: an Add in between makes it panic
+		// (natively the runtime may also report the misuse from the Add side; the simulator models the waiter side)
+		var wg sync.WaitGroup
+		wg.Add(1)
+		res := make(chan string, 1)
+		go func() { res <- catch(func() { wg.Wait() }) }()
+		wg.Done()
+		wg.Add(1)
+		wg.Done()
+		return <-res
+	}},
 	{Name: "mutex-excludes", Want: []string{"2"}, Fn: func() string {
 		var mu sync.Mutex
 		var wg sync.WaitGroup
